@@ -45,6 +45,17 @@ PROPS = {
         required="spec",
         nontrivial="history reuses an index or contains a failing batch deletion",
     ),
+    "C11": dict(
+        domain="dispatch", module="Props.C11",
+        theorems=["C11_stages_conflict_free", "C11_stages_respect_deps", "C11_staged_exactly_once",
+                  "C11_staged_ids_distinct", "C11_group_size_bounded",
+                  "C11_builder_panics_only_on_unknown_dependency", "C11_run_exactly_once",
+                  "C11_dependencies_complete_first", "C11_no_conflicting_overlap", "C11_borrow_never_refused",
+                  "C11_all_steps_safe", "C11_decl_matches_fetch", "C11_decl_matches_fetch_tuple",
+                  "C11_fetch_then_probe", "C11_fetch_order_irrelevant", "C11_handles_self_ok"],
+        required="faithful",
+        nontrivial="the real builder's tree has a stage with two groups and a forced sequencing; really dispatched",
+    ),
 }
 
 # ------------------------------------------------------------------ known findings
@@ -418,12 +429,18 @@ def run_check(pid, tier, seed):
     dom = PROPS[pid]["domain"]
     if dom == "world":
         return check_world(pid, tier, seed)
+    if dom == "dispatch":
+        from . import dispatch_check
+        return dispatch_check.check_dispatch(pid, tier, seed)
     raise SystemExit("unknown domain")
 
 
 def replay(path):
     obj = json.load(open(path))
     pid = obj["property"]
+    if obj.get("domain") == "dispatch":
+        from . import dispatch_check
+        return dispatch_check.replay(obj, path)
     if "encoded" not in obj:
         print(json.dumps(obj, indent=1))
         return 1
